@@ -422,6 +422,9 @@ OBS_FILES = [
     [("1.0", "(Def/Pl, Onset), Condition-variable/A"), ("1.0", "Task, Blue"), ("2.5", "(Def/Pl, Offset), Def/Cv")],
     [("0.5", "Red"), ("1.5", "(Delay/1 s, (Condition-variable/Late, Green)), Task")],
 ]
+OBS_FILES.append([("1.0", "(Def/Pl, Onset, (Task, Pink))"), ("2.0", "Red"), ("3.0", "(Def/Cv, Onset, (Circle))"),
+                  ("4.0", "(Duration/3 s, (Condition-variable/X, Purple)), Green"), ("5.0", "Blue"), ("6.0", "(Def/Pl, Offset)"),
+                  ("9.0", "Square")])
 OBS_OPS = ["unfold", "unfold:cv", "unfold:cv+task", "objs", "objs:cv", "objs-noctx:task"]
 
 
@@ -460,6 +463,21 @@ def observer_histories(ctx, depth):
         try:
             fresh = {op: observe(build(rows), op) for op in OBS_OPS}
             initial = snapshot(build(rows))
+            # a process is listed in later contexts in the form in which it is listed where it starts - also when types are
+            # filtered out of it (every item of a context occurs in the start list of an earlier entry)
+            for op in OBS_OPS:
+                if not op.startswith("unfold"):
+                    continue
+                _, base_l, ctx_l = fresh[op]
+                started = []
+                for j in range(len(base_l)):
+                    for item in multiset(ctx_l[j]):
+                        rec.n("transitions")
+                        if item not in started:
+                            rec.violation("C20:observer:context-lists-a-process-in-another-form-than-its-start-list", file=rows,
+                                          observer=op, entry=j, context=ctx_l[j], start_lists=base_l[:j])
+                            break
+                    started += multiset(base_l[j])
         except Exception as e:
             rec.violation("C20:observer:raises:" + type(e).__name__, file=rows, error=repr(e)[:300])
             continue
